@@ -202,22 +202,69 @@ def place(placement, params, vararg, kwarg, args):
     raise ValueError(placement)
 
 
+def _sig_cases(params, vararg, kwarg, placements, dup_shapes):
+    sk = sig_key(params, vararg, kwarg)
+    for ck, args, dup in call_shapes(params, dup_shapes):
+        npos = int(ck[0])
+        kwpart = ck.split("/")[1]
+        kw_given = set(kwpart.split(":")[0]) if kwpart != "-" else set()
+        if dup:
+            feat = "dupkw"
+        elif uses_default(params, vararg, kwarg, npos, kw_given):
+            feat = "dflt"
+        else:
+            feat = "plain"
+        for pl in placements:
+            defs, call = place(pl, params, vararg, kwarg, args)
+            yield case(f"sig/{pl}/{feat}/{sk}/{ck}", defs, call, binding=True)
+
+
 def cases(nmax, placements, nmin=0, dup_shapes=False):
     """dup_shapes=False: all call shapes without duplicate keywords; True: only the duplicate-keyword shapes"""
     for params, vararg, kwarg in signatures(nmax):
         if len(params) < nmin:
             continue
-        sk = sig_key(params, vararg, kwarg)
-        for ck, args, dup in call_shapes(params, dup_shapes):
-            npos = int(ck[0])
-            kwpart = ck.split("/")[1]
-            kw_given = set(kwpart.split(":")[0]) if kwpart != "-" else set()
-            if dup:
-                feat = "dupkw"
-            elif uses_default(params, vararg, kwarg, npos, kw_given):
-                feat = "dflt"
-            else:
-                feat = "plain"
+        yield from _sig_cases(params, vararg, kwarg, placements, dup_shapes)
+
+
+# ---- work units: one (signature, placement) pair each, so that nothing big has to be pickled -------------
+_SIGS = None
+
+
+def _sigs():
+    global _SIGS
+    if _SIGS is None:
+        _SIGS = list(signatures(3))
+    return _SIGS
+
+
+def _count_upto(n):
+    return sum(1 for p, _, _ in _sigs() if len(p) <= n)
+
+
+def tasks(thorough, seed):
+    out = []
+
+    def add(nmax, placements, dup=False):
+        for i in range(_count_upto(nmax)):
             for pl in placements:
-                defs, call = place(pl, params, vararg, kwarg, args)
-                yield case(f"sig/{pl}/{feat}/{sk}/{ck}", defs, call, binding=True)
+                out.append(("sig", i, pl, dup))
+
+    if thorough:
+        add(3, PLACEMENTS_BASE + PLACEMENTS_EXTRA)
+        add(2, PLACEMENTS_BASE, dup=True)
+    else:
+        add(3, ("def",))
+        add(2, PLACEMENTS_BASE[1:])
+        add(1, ("def", "method"), dup=True)
+        # seed-chosen extra stratum beyond the always-complete part: one of the thorough-only placements
+        add(2, (PLACEMENTS_EXTRA[seed % len(PLACEMENTS_EXTRA)],))
+    # signatures with more parameters have more call shapes: biggest units first keeps the pool's tail short
+    out.sort(key=lambda d: -len(_sigs()[d[1]][0]))
+    return out
+
+
+def expand(desc):
+    _, i, pl, dup = desc
+    params, vararg, kwarg = _sigs()[i]
+    return _sig_cases(params, vararg, kwarg, (pl,), dup)
